@@ -99,6 +99,13 @@ def apply(st: State, op: list) -> None:
                 st.h[op[1]].popitem()
             except KeyError:
                 pass        # the classname cannot be removed: refusing is fine, the indexes must still agree
+        elif kind == 'update_ent':
+            # update() given another Entity (a mapping like any other) as the source
+            _, h, h2 = op
+            if h != h2:
+                st.h[h].update(st.h[h2])
+        elif kind == 'update_pairs':
+            st.h[op[1]].update([('TargetName', 'm'), ('classname', 'A')])
         elif kind == 'update_kw':
             st.h[op[1]].update(TargetName='n', ClassName='b')
         elif kind == 'pop':
@@ -252,6 +259,10 @@ class Model(bfs.Model):
             ops.append(['setdefault', i, 'TargetName', 'N'])
             ops.append(['popitem', i])
             ops.append(['update_kw', i])
+            ops.append(['update_pairs', i])
+            for j in range(len(st.h)):
+                if j != i:
+                    ops.append(['update_ent', i, j])
             if len(st.h) < self.maxh:
                 ops.append(['copy', i, 0])
                 ops.append(['copy', i, 1])
